@@ -663,12 +663,47 @@ JUNK = [None, True, 0, -3, 1.5, 'junk', b'by', [], [1, 'a'], {'k': 1}, (1, 2), [
         {'n': 250, 'm': {'k': 3}}, [{'a': 1}, [2, 'b']], {'s': 'txt', 'l': [1, 2]}]
 
 
-def sample_value(ast, world: World, rng, valid_p=0.8, alphabet='mixed', depth=0):
-    """Return an interchange value aimed at (but not guaranteed to be in) the type `ast`."""
+def _near_miss(ast, world, rng, rec):
+    """A value of the *right run-time type* that the constrained node `ast` (literal, enum, condition) must still
+    reject: what a converter that has stopped looking at values (and only looks at their types) would let through."""
+    k = ast[0]
+    if k in ('lit', 'enum'):
+        members = [dec(m) for m in ast[1:]] if k == 'lit' else [dec(m[1]) for m in world.enum_specs[ast[1]]['members']]
+        m = rng.choice(members)
+        if isinstance(m, bool) or m is None:
+            return rng.choice(['junk', 2])
+        if isinstance(m, str):
+            out = m + rng.choice(['x', '_', ' '])
+            return out if out not in members else m + 'zz'
+        if isinstance(m, (int, float)):
+            nums = [x for x in members if isinstance(x, (int, float)) and not isinstance(x, bool)]
+            return type(m)(max(nums) + rng.choice([1, 7]))
+        return 'junk'
+    if k == 'ann':
+        cond = ast[2]
+        inner = ast[1]
+        if cond in NUM_CONDS:
+            f = float if inner == ['s', 'float'] else int
+            return {'Positive': f(rng.choice([0, -1, -12])), 'NonNegative': f(rng.choice([-1, -5])),
+                    'Negative': f(rng.choice([0, 3])), 'range0_10': f(rng.choice([11, -1, 250]))}[cond]
+        if cond == 'NonEmpty':
+            return []
+        if cond == 'Empty':
+            return [rec(inner[1])]
+        if cond == 'len1_3':
+            return [rec(inner[1]) for _ in range(rng.choice([4, 5]))] if rng.random() < 0.7 else []
+    return rng.choice(JUNK)
+
+
+def sample_value(ast, world: World, rng, valid_p=0.8, alphabet='mixed', depth=0, near_p=0.0):
+    """Return an interchange value aimed at (but not guaranteed to be in) the type `ast`.
+    `near_p`: probability that a constrained node (literal, enum, condition) gets a same-type non-member instead."""
     if rng.random() > valid_p:
         return rng.choice(JUNK)
     k = ast[0]
-    rec = lambda a: sample_value(a, world, rng, valid_p, alphabet, depth + 1)  # noqa
+    rec = lambda a: sample_value(a, world, rng, valid_p, alphabet, depth + 1, near_p)  # noqa
+    if near_p and k in ('lit', 'enum', 'ann') and rng.random() < near_p:
+        return _near_miss(ast, world, rng, lambda a: sample_value(a, world, rng, valid_p, alphabet, depth + 1, 0.0))
     n_items = lambda: rng.choice([0, 1, 1, 2, 3]) if depth < 3 else rng.choice([0, 1])  # noqa
     if k == 's':
         n = ast[1]
@@ -758,11 +793,11 @@ def sample_value(ast, world: World, rng, valid_p=0.8, alphabet='mixed', depth=0)
         spec = world.enum_specs[ast[1]]
         return dec(rng.choice(spec['members'])[1])
     if k == 'cls':
-        return sample_instance_data(world.class_specs[ast[1]], {}, world, rng, valid_p, alphabet, depth)
+        return sample_instance_data(world.class_specs[ast[1]], {}, world, rng, valid_p, alphabet, depth, near_p)
     if k == 'gen':
         spec = world.class_specs[ast[1]]
         binding = dict(zip(all_typevars(spec, world), ast[2:]))
-        return sample_instance_data(spec, binding, world, rng, valid_p, alphabet, depth)
+        return sample_instance_data(spec, binding, world, rng, valid_p, alphabet, depth, near_p)
     if k == 'tv':
         if ast[1] == 'B':
             return sample_int(rng)
@@ -833,12 +868,12 @@ def effective_fields(spec, binding, world):
     return fields
 
 
-def sample_instance_data(spec, binding, world, rng, valid_p, alphabet, depth):
+def sample_instance_data(spec, binding, world, rng, valid_p, alphabet, depth, near_p=0.0):
     fields = effective_fields(spec, binding, world)
     opts = spec.get('opts') or {}
     in_format = opts.get('in_format') or ['struct']
     layout = rng.choice(list(in_format))
-    rec = lambda a: sample_value(a, world, rng, valid_p, alphabet, depth + 1)  # noqa
+    rec = lambda a: sample_value(a, world, rng, valid_p, alphabet, depth + 1, near_p)  # noqa
     if layout == 'tuple':
         vals = []
         for f in fields:
